@@ -8,6 +8,8 @@ CONSTANTS
   QCap = 5
   StopFix = FALSE
   EmitMax = 6
+  Pipes = {FALSE}
+  PCap = 1
 SPECIFICATION Spec
 INVARIANTS Safe Strict0 TokensFit Locks Counter TermStop TermDelivered
 CHECK_DEADLOCK FALSE
